@@ -78,6 +78,16 @@ class MinPathCoverCycles(walkmodel.AbstractWalkModelDiGraph):
 
         # Handling node-weighted graphs
         self.cover_type = cover_type
+        # The user-level arguments are forwarded unchanged to the k-path-cover models,
+        # which perform the node expansion (and the condensation of the solution walks) themselves
+        self._user_args = {
+            "G": G,
+            "cover_type": cover_type,
+            "subset_constraints": subset_constraints,
+            "elements_to_ignore": elements_to_ignore,
+            "additional_starts": additional_starts,
+            "additional_ends": additional_ends,
+        }
         if self.cover_type == "node":
             if G.number_of_nodes() == 0:
                 utils.logger.error(f"{__name__}: The input graph G has no nodes. Please provide a graph with at least one node.")
@@ -149,13 +159,14 @@ class MinPathCoverCycles(walkmodel.AbstractWalkModelDiGraph):
                 i_solver_options["time_limit"] = self.time_limit - self.solve_time_elapsed
 
             model = kpathcovercycles.kPathCoverCycles(
-                        G=self.G,
+                        G=self._user_args["G"],
                         k=i,
-                        subset_constraints=self.subset_constraints,
+                        cover_type=self._user_args["cover_type"],
+                        subset_constraints=self._user_args["subset_constraints"],
                         subset_constraints_coverage=self.subset_constraints_coverage,
-                        elements_to_ignore=self.edges_to_ignore,
-                        additional_starts=self.additional_starts,
-                        additional_ends=self.additional_ends,
+                        elements_to_ignore=self._user_args["elements_to_ignore"],
+                        additional_starts=self._user_args["additional_starts"],
+                        additional_ends=self._user_args["additional_ends"],
                         optimization_options=self.optimization_options,
                         solver_options=i_solver_options,
                     )
@@ -210,7 +221,8 @@ class MinPathCoverCycles(walkmodel.AbstractWalkModelDiGraph):
     def get_lowerbound_k(self):
 
         if self._lowerbound_k is None:
-            stG = stdigraph.stDiGraph(self.G)
-            self._lowerbound_k = stG.get_width(edges_to_ignore=self.edges_to_ignore)
+            stG = stdigraph.stDiGraph(self.G, additional_starts=self.additional_starts, additional_ends=self.additional_ends)
+            # as in the k-models, the synthetic source/sink edges are passed together with the edges to ignore
+            self._lowerbound_k = stG.get_width(edges_to_ignore=list(stG.source_sink_edges.union(self.edges_to_ignore)))
 
         return self._lowerbound_k
